@@ -32,6 +32,7 @@ ChainHeap(n, kh, ph, k, pos, leaf, back) ==
 HeapSet ==
     CASE HeapMode = "all"     -> [Cells -> CellType]
       [] HeapMode = "uniform" -> UNION {[Cells -> CellsOfKind(k)] : k \in Kinds}
+      [] HeapMode = "arr"     -> [Cells -> CellsOfKind("arr")]
       [] HeapMode = "arrmap"  -> [Cells -> CellsOfKind("arr") \cup CellsOfKind("map")]
       [] OTHER                -> {ChainHeap(n, kh, ph, k, pos, lb[1], lb[2]) : n \in ChainLens \cap Cells, kh \in Kinds, ph \in 1 .. 2,
                                        k \in Kinds, pos \in 1 .. 2, lb \in {<<TRUE, FALSE>>, <<FALSE, FALSE>>, <<FALSE, TRUE>>}}
